@@ -13,7 +13,9 @@ RULE = ("random ragged DNF lists (rows 1-6, disjuncts 1-3, conjuncts 1-3, 2-3 ca
 def one_case(ctx, I, n_units, n_cands, exprs):
     keys, scheme = rand_keys(ctx.rng, n_units)
     ckeys, cscheme = rand_ckeys(ctx.rng, n_cands)
-    prov, units, es = make_prov(I, exprs, n_units, n_cands, keys=keys, lazy=(ctx.rng.random() < 0.3), ckeys=ckeys)
+    via_default = ctx.rng.random() < 0.25
+    prov, units, es = make_prov(I, exprs, n_units, n_cands, keys=keys, lazy=(ctx.rng.random() < 0.3), ckeys=ckeys, via_default=via_default)
+    ctx.dist["built=" + ("default container edited in place" if via_default else "from expressions")] += 1
     ctx.dist["unit_keys=" + scheme] += 1
     ctx.dist["candidate_keys=" + cscheme] += 1
     asg = spec.assignments(n_units, n_cands)
